@@ -62,9 +62,15 @@ fn transcript_raw(lib: &raw::Library) -> Result<String, String> {
 fn gen_abstract_heavy(src: &mut Src) -> rawlib::RLib {
     use rawlib::*;
     let nl = src.usize_in(2, 4);
-    let layers: Vec<RLayer> = (0..nl)
-        .map(|i| RLayer { num: 5 * i as i16 + src.below(4) as i16, name: Some(format!("L{}", i)), purposes: vec![(src.below(3) as i16, RPurpose::Drawing), (10 + src.below(3) as i16, RPurpose::Label), (20 + src.below(3) as i16, RPurpose::Pin), (30 + src.below(3) as i16, RPurpose::Obstruction)] })
-        .collect();
+    // distinct Layer objects may share a layer number (as met1 68/20 and via 68/44 do in real technologies);
+    // their (number, purpose number) pairs stay distinct
+    let mut layers: Vec<RLayer> = vec![];
+    for i in 0..nl {
+        let share = i > 0 && src.prob(1, 3);
+        let num = if share { layers[i - 1].num } else { 5 * i as i16 + src.below(4) as i16 };
+        let o = 40 * i as i16;
+        layers.push(RLayer { num, name: Some(format!("L{}", i)), purposes: vec![(o + src.below(3) as i16, RPurpose::Drawing), (o + 10 + src.below(3) as i16, RPurpose::Label), (o + 20 + src.below(3) as i16, RPurpose::Pin), (o + 30 + src.below(3) as i16, RPurpose::Obstruction)] });
+    }
     let nc = src.usize_in(1, 3);
     let mut cells = vec![];
     for ci in 0..nc {
